@@ -696,8 +696,9 @@ class _SetOperation(Selectable, Term):  # type:ignore[misc]
         if self._orderbys:
             # ORDER BY of a set operation names result columns: never qualified by an enclosing query's namespace,
             # nor bracketed because the set operation stands under a NOT
+            # ... and a query among the terms is a bracketed subquery, as in the clauses of a plain query
             querystring += self._orderby_sql(
-                ctx.copy(with_namespace=False, with_alias=False, subcriterion=False)
+                ctx.copy(with_namespace=False, with_alias=False, subcriterion=False, subquery=True)
             )
 
         # row limiting follows the dialect of the base query's builder class (LIMIT/OFFSET, OFFSET..FETCH NEXT, ...)
